@@ -27,9 +27,40 @@ type payload struct {
 	Source  string               `json:"source"`
 	Modules map[string]string    `json:"modules,omitempty"`
 	Inputs  map[string]*lang.Val `json:"inputs,omitempty"`
+	prog    *lang.Program        // generated cases only (not saved): lets the failure path ask the reference interpreter
 }
 
 const budget = 2000000
+
+// outsideDomain is asked before a behavioural difference between the twins
+// is reported. The generator's filter (refx.Stable) tries four fixed map
+// orders, which cannot show every dependence on map order; here (a) the
+// reference interpreter enumerates every order of every map traversal, and
+// (b) each twin is compiled and run 16 more times on its own: a twin that
+// does not even agree with itself runs a program whose result depends on Go's
+// map iteration order, which the property excludes.
+func outsideDomain(p payload) string {
+	if p.prog != nil && refx.OrderDependent(p.prog, p.Inputs, ref.DefaultConfig()) {
+		return "excluded:capacity-or-map-order-dependent (exhaustive enumeration after a mismatch)"
+	}
+	for _, noDCE := range []bool{false, true} {
+		first := ""
+		for i := 0; i < 17; i++ {
+			u, err := compileWith(noDCE, p, nil)
+			if err != nil {
+				break
+			}
+			r := bridge.RunVM(u.Bytecode, u.Globals, u.Index, budget, -1)
+			k := r.Status + "|" + r.ErrText + "|" + bridge.DescribeGlobals(r.Globals, nil)
+			if i == 0 {
+				first = k
+			} else if k != first {
+				return "excluded:map-order-dependent (one twin gives different results from run to run)"
+			}
+		}
+	}
+	return ""
+}
 
 func compileWith(noDCE bool, p payload, log *[]tengo.VerifDCERecord) (*bridge.Unit, *bridge.CompileError) {
 	tengo.VerifSetNoDCE(noDCE)
@@ -108,6 +139,12 @@ func check(t ev.TB, test string, p payload, classes []string) {
 	// dynamic: identical behaviour
 	a := bridge.RunVM(opt.Bytecode, opt.Globals, opt.Index, budget, -1)
 	b := bridge.RunVM(raw.Bytecode, raw.Globals, raw.Index, budget, -1)
+	if a.Status != b.Status || a.ErrText != b.ErrText || bridge.DescribeGlobals(a.Globals, nil) != bridge.DescribeGlobals(b.Globals, nil) {
+		if why := outsideDomain(p); why != "" {
+			ev.Discard(why)
+			return
+		}
+	}
 	if a.Status == "budget" || b.Status == "budget" {
 		if a.Status != b.Status {
 			ev.Fail(t, test, p, "one twin exceeded the instruction budget, the other ended with %s/%s\n--- source ---\n%s", a.Status, b.Status, clip(p.Source))
@@ -173,7 +210,7 @@ func TestDCEDifferential(t *testing.T) {
 		if len(mods) > 0 {
 			classes = append(classes, "has-modules")
 		}
-		check(t, "TestDCEDifferential", payload{Source: src, Modules: mods, Inputs: inputs}, classes)
+		check(t, "TestDCEDifferential", payload{Source: src, Modules: mods, Inputs: inputs, prog: p}, classes)
 	})
 }
 
